@@ -13,7 +13,7 @@ INV_OF = {
     "C02": {"AckAfterDurable", "StoreMonotone", "HandledBeforeStored"},
     "C03": {"OpenAtStored", "OpenNotPastUnhandled", "HandledBeforeStored", "AckAfterDurable"},
     "C04": {"AckPrefix"},
-    "C05": {"DestOrder", "NoDupWrite"},
+    "C05": {"DestOrder", "NoDupWrite", "WriteDerived"},
     "C06": {"AckedBeforeTeardown", "NoHalfHandled", "StoredIsLastAcked", "TornDownOnce", "NoHang",
             "TeardownMatchesOpen", "AckPrefix"},
     "C07": {"DlqOnce", "DlqSourceOrder", "DlqBeforeAck", "DlqCarriesOriginal", "DlqDecision", "DlqFailNoAck"},
